@@ -165,4 +165,25 @@ def oracle(chk, quad, car, case, out, tb, Ns, al, Nr, Mr):
 
 
 def replay(chk, payload):
-    run(chk)
+    """re-evaluate the oracle on exactly the stored state and escape settings"""
+    from scipy.integrate import quad
+    c = payload["failure"]["input"]
+    if "carrier" not in c:
+        return run(chk)
+    car0, kw, args = F.carriers(None)[c["carrier"]]
+    car = copy.copy(car0)
+    mb = car.massbins
+    nb = mb.nbin
+    y = np.array([C.unjson_float(v) for v in c["y"]])
+    t = C.unjson_float(c["t"])
+    car.md, car._esc_norm, car.tcc = c["md"], c["norm"], C.unjson_float(c["tcc"])
+    rate = c["rate"]
+    car.esc_rate = (lambda tt: rate) if c.get("callable") else rate
+    car._time_dep_esc = bool(c.get("callable"))
+    mto = float(car.compute_mto(np.array(t)))
+    tb = mb.turned_off_bins(mto)
+    un = [list(map(float, a)) for a in mb.unpack_values(car._derivs_esc(t, y.copy()))]
+    out = [un[0], un[1], un[2] + un[3] + un[4], un[5] + un[6] + un[7]]
+    nr = nb.WD + nb.NS + nb.BH
+    oracle(chk, quad, car, dict(c, y=list(y), t=t), out, tb, y[:nb.MS], y[nb.MS:2 * nb.MS], y[2 * nb.MS:2 * nb.MS + nr], y[2 * nb.MS + nr:])
+    print("sum dNs + dNr =", sum(out[0]) + sum(out[2]), "rate =", rate)
